@@ -325,6 +325,16 @@ Theorem C09_star_value : forall h (junk sp : list byte) x tail, spaces sp -> is_
   parse_nameaddr h (junk ++ (42 : byte) :: sp ++ CR :: LF :: x :: tail) i0 pfrom0
   = Done (i0 + 1 + nnat (length sp) + 2) EOk (mkpfrom pf0 (mkpf i0 1) pf0 true false false h 0 0 pf0 (mkpf i0 1) EOk 0 FbFIN 0 0 0 0 0).
 Proof. exact nameaddr_star_eol. Qed.
+(* P-Asserted-Identity: ParseOnePAI is the same value parser (kind HdrPAI) and only turns a star into an error, so every value
+   theorem above holds for it as it stands (the values they describe have no star) *)
+Theorem C09_pai_value_same_as_nameaddr : forall buf offs s o e s', parse_nameaddr HdrPAI buf offs s = Done o e s' -> fb_star s' = false ->
+  parse_one_pai buf offs s = Done o e s'.
+Proof. exact pai_one_same. Qed.
+Theorem C09_general_values_have_no_star : forall h p L t i d nm i0 us lu g (n0 : byte) (name : list byte),
+  fb_star (finW h d (t_apply p (i + nnat (length (its_bytes L))) t (its_state p i L (bD nm i0 us lu)))) = false /\
+  fb_star (finW h d (t_apply p (i + nnat (length (its_bytes L))) t (its_state p i L (bB i0 lu g)))) = false /\
+  fb_star (fD h nm i0 us lu) = false /\ fb_star (fB h i0 (nnat (length (n0 :: name)))) = false.
+Proof. intros. repeat split; try reflexivity; apply general_values_no_star; reflexivity. Qed.
 (* ---- the Contact list with general values ------------------------------------------------------------------------------------------------------ *)
 Theorem C09_contact_list_general_values : forall gs (junk sp : list byte) x tail n, gs <> [] -> Forall gv_ok gs -> spaces sp -> is_sp x = false ->
   let i := nnat (length junk) in
